@@ -121,6 +121,44 @@ Theorem json_submatches_are_the_submatches :
 Proof. exact json_feed_stats. Qed.
 Print Assumptions json_submatches_are_the_submatches.
 
+(* 5b. the same with -m N (line-oriented counting): the three printers stop after the same Matched
+       event (theorems 2-3), and over that consumed prefix of the stream
+         consumed (-m N) evs = everything up to and including the N-th Matched event
+       --count-matches prints the number of submatches, and JSON's stats.matches and the number of
+       submatch objects in its match messages are that same number *)
+Theorem count_matches_under_limit :
+  forall find_at env cfg path w evs fins,
+    line_counting env -> Forall (ev_ok find_at env) evs -> path_present cfg path ->
+    (forall k, squashed env (fins k) = false) -> sc_kind cfg = KCountMatches ->
+    exists s, summary_run find_at cfg env path w evs fins = Some (s, true) /\
+      w_out (ss_wtr s) = w_out w ++
+        (if negb (sc_exclude_zero cfg) || Nat.ltb 0 (limited (sc_max cfg) (count_matched evs))
+         then path_field cfg (spath cfg path)
+              ++ dec (count_submatches find_at env (consumed (sc_max cfg) evs)) ++ lt_bytes (e_lt env)
+         else []).
+Proof. exact count_matches_run_output_proof. Qed.
+Print Assumptions count_matches_under_limit.
+
+Theorem json_submatches_under_limit :
+  forall find_at env cfg path evs fins,
+    no_after_wait env (j_max cfg) -> Forall (ev_ok find_at env) evs ->
+    exists s, json_run find_at cfg env path evs fins = Some (s, true) /\
+      s_matches (js_stats s) = count_submatches find_at env (consumed (j_max cfg) evs) /\
+      json_submatch_total (js_out s) = count_submatches find_at env (consumed (j_max cfg) evs).
+Proof. exact json_run_submatches_proof. Qed.
+Print Assumptions json_submatches_under_limit.
+
+(* 5c. --only-matching in a line-oriented search writes exactly one record per recorded span (the
+       spans being the submatches by theorem 1), so the number of -o records of a line is its
+       number of submatches *)
+From RG Require Import Spec.PrinterSpec Proofs.PrinterProofs.
+Theorem only_matching_one_record_per_submatch :
+  forall cfg env path sk w, st_only_matching cfg = true ->
+    w_out (sink_slow cfg env path sk w)
+    = w_out w ++ concat (map (span_record cfg env path sk true) (k_matches sk)).
+Proof. exact sink_slow_only_matching_layout. Qed.
+Print Assumptions only_matching_one_record_per_submatch.
+
 (* 6. every genuinely matched line has a submatch — outside the known class D2 *)
 Theorem matched_line_has_submatch :
   forall find_at env (m : sink_match),
